@@ -169,6 +169,9 @@ var c17Alphabet = []string{
 	"́", "̈", "̇", "é", "É", "ü", "Ü", "ß", "ẞ", "İ", "ı", "ς", "σ", "Σ", "ſ", "K",
 	"µ", "μ", "Μ", "ǅ", "ǆ", "Ǆ", "Ａ", "ａ", "＠", "．", "。", "中", "\u007f", "\u0080", "\u0081", "ÿ",
 	"xn--", "XN--", "xn--mnchen-3ya", "XN--MNCHEN-3YA", "xn--e1afmkfd", "xn--a", "xn---", "postmaster", "POSTMASTER", "poſtmaster",
+	// non-ASCII white space and other code points a careless "trim" drops (valid in RFC 6531 local parts);
+	// U+0338 composes with the specials '<' '>' (and '='), U+037E is canonically ';'
+	"\u0085", "\u00a0", "\u2003", "\u3000", "\ufeff", "\u200b", "\u0338", "\u226e", "\u037e", "\t", "\n",
 }
 
 func c17Random(r *vh.Rng, maxLen int) string {
@@ -204,6 +207,125 @@ var c17Locals = []string{"user", "bob", "postmaster", "rené", "ünïcode", "fir
 // letters whose case mapping is context- or language-sensitive somewhere in x/text/cases
 var c17CaseLetters = []string{"σ", "σ", "σ", "ς", "ı", "i", "ì", "í", "į", "j́", "ß", "k", "s"}
 
+// code points a "trim"/"clean-up" step is tempted to drop: Unicode White_Space outside ASCII (U+0085, U+00A0,
+// U+1680, U+2000..U+200A, U+2028, U+2029, U+202F, U+205F, U+3000), other C1 controls, BOM / zero-width and
+// other default-ignorable format characters, soft hyphen, variation selector, private use, U+FFFD.
+// All of them are ordinary characters of an RFC 6531 local part (and of a domain as far as maddy is concerned).
+var c17Trimmable = []string{"\u0085", "\u00a0", "\u1680", "\u2000", "\u2002", "\u2003", "\u2009", "\u200a", "\u2028", "\u2029",
+	"\u202f", "\u205f", "\u3000", "\u3000", "\u00a0", "\u0080", "\u009f", "\ufeff", "\ufeff", "\u200b", "\u200c", "\u200d", "\u200e", "\u200f",
+	"\u2060", "\u00ad", "\u180e", "\u034f", "\ufe0f", "\ue000", "\ufffd", "\U000e0001", "\u115f", "\u3164"}
+
+// c17Edge puts one or two such code points at the start and/or the end of s
+func c17Edge(r *vh.Rng, s string) string {
+	x := c17Trimmable[r.Intn(len(c17Trimmable))]
+	switch r.Intn(5) {
+	case 0, 1:
+		return x + s
+	case 2, 3:
+		return s + x
+	default:
+		return x + s + c17Trimmable[r.Intn(len(c17Trimmable))]
+	}
+}
+
+// RFC 5322 specials (dot excluded): a local part containing one of them has to be written as a quoted string
+var c17Specials = []string{" ", " ", "(", ")", "<", ">", "[", "]", ":", ";", ",", "@", "\\", "\"", "\\", "\""}
+
+// sequences for which NFC changes whether quotes are needed: a special followed by a combining mark it
+// composes with ('<' '>' + U+0338 -> U+226E U+226F), the composed forms, '=' + U+0338 (no special involved),
+// singletons that normalise TO an ASCII character (U+037E -> ';' a special, U+1FEF -> '`', U+212A -> 'K'),
+// a special followed by marks that do not compose with it
+var c17QuoteSensitive = []string{"<\u0338", ">\u0338", "<\u0338", ">\u0338", "\u226e", "\u226f", "=\u0338", "\u2260", "\u037e", "\u1fef", "\u212a",
+	"<\u0301", " \u0308", ">\u0338\u0301", "<\u0323\u0338", ";\u0301", "\"\u0338", "\\\u0338", "@\u0338", "(\u0338"}
+
+// raw (unquoted, unescaped) local parts that are written as quoted strings
+var c17QuotedRaws = []string{"john smith", "a@b", " lead", "trail ", "a,b", "(comment)", "[x]", "a:b;c", "back\\slash", "quo\"te", "\\", "\"", "\"\"",
+	"user", "rené", "Bob Σ", "ασ σ1", "İ x", "J. Σ", "x y z", "postmaster", ". .", "a..b", ".dot",
+	"<\u0338", ">\u0338", "a<\u0338", "x>\u0338y", "\u226e", "\u226f", "a\u226eb", "=\u0338", "\u2260", "a\u037eb", "\u037e", "<e\u0301>", "<\u0338>\u0338", "Σ<\u0338"}
+
+// the harness' own spelling of a raw local part as an RFC 5321 quoted string (independent of QuoteMbox):
+// '\\' and '"' are always escaped, any other character is escaped redundantly with probability pct/100
+func c17Spell(r *vh.Rng, raw string, pct int) string {
+	var b strings.Builder
+	b.WriteByte('"')
+	for _, ch := range raw {
+		// (an escape in front of a combining mark keeps it from composing with the character before it)
+		if ch == '\\' || ch == '"' || r.Chance(pct) || unicode.IsMark(ch) && r.Chance(20) {
+			b.WriteByte('\\')
+		}
+		b.WriteRune(ch)
+	}
+	b.WriteByte('"')
+	return b.String()
+}
+
+// the harness' own reading of a quoted string (independent of UnquoteMbox): ok only for `"` qcontent `"`
+// with complete escape pairs and a non-empty content
+func c17OwnUnquote(m string) (string, bool) {
+	rs := []rune(m)
+	if len(rs) < 3 || rs[0] != '"' || rs[len(rs)-1] != '"' {
+		return "", false
+	}
+	in := rs[1 : len(rs)-1]
+	var b []rune
+	for i := 0; i < len(in); i++ {
+		switch in[i] {
+		case '\\':
+			i++
+			if i >= len(in) {
+				return "", false
+			}
+			b = append(b, in[i])
+		case '"':
+			return "", false
+		default:
+			b = append(b, in[i])
+		}
+	}
+	if len(b) == 0 {
+		return "", false
+	}
+	return string(b), true
+}
+
+// the raw local part a spelling stands for
+func c17Raw(m string) string {
+	if strings.HasPrefix(m, "\"") {
+		if raw, ok := c17OwnUnquote(m); ok {
+			return raw
+		}
+	}
+	return m
+}
+
+func c17InsertAt(r *vh.Rng, s, x string) string {
+	rs := []rune(s)
+	p := r.Intn(len(rs) + 1)
+	return string(rs[:p]) + x + string(rs[p:])
+}
+
+// a quoted local part: a raw local part with specials and/or quote-sensitive sequences (or none: redundant
+// quotes), spelled with random redundant escapes
+func c17QuotedLocal(r *vh.Rng) string {
+	var raw string
+	if r.Chance(50) {
+		raw = c17QuotedRaws[r.Intn(len(c17QuotedRaws))]
+	} else {
+		raw = c17Locals[r.Intn(len(c17Locals))]
+		for k := r.Intn(3); k >= 0; k-- {
+			if r.Chance(55) {
+				raw = c17InsertAt(r, raw, c17QuoteSensitive[r.Intn(len(c17QuoteSensitive))])
+			} else {
+				raw = c17InsertAt(r, raw, c17Specials[r.Intn(len(c17Specials))])
+			}
+		}
+	}
+	if r.Chance(15) {
+		raw = c17Edge(r, raw)
+	}
+	return c17Spell(r, raw, []int{0, 0, 10, 40}[r.Intn(4)])
+}
+
 type c17Addr struct{ mbox, domain string }
 
 // decorate puts one case-sensitive letter at a word boundary of s: at the end, at the start, before a
@@ -229,6 +351,15 @@ func c17Valid(r *vh.Rng) c17Addr {
 	if r.Chance(20) {
 		mbox = c17Decorate(r, mbox)
 	}
+	switch k := r.Intn(100); {
+	case k < 14:
+		mbox = c17QuotedLocal(r)
+	case k < 26:
+		mbox = c17Edge(r, mbox)
+	case k < 31:
+		// unquoted, with a sequence that composes / normalises to a non-special ASCII graphic
+		mbox = c17InsertAt(r, mbox, r.Pick("=\u0338", "\u2260", "\u226e", "\u226f", "\u1fef", "\u212a", "\u0338"))
+	}
 	if r.Chance(6) {
 		return c17Addr{mbox, c17Literals[r.Intn(len(c17Literals))]}
 	}
@@ -245,6 +376,12 @@ func c17Valid(r *vh.Rng) c17Addr {
 			l = c17Labels[r.Intn(len(c17Labels))]
 			if r.Chance(15) {
 				l = c17Decorate(r, l)
+			}
+		}
+		if r.Chance(7) {
+			// a label that starts / ends with a "trimmable" code point (kept in NFC: the generated address is in U-form)
+			if e := c17Edge(r, l); norm.NFC.IsNormalString(e) && len(e) < 60 {
+				l = e
 			}
 		}
 		ls = append(ls, l)
@@ -317,8 +454,14 @@ func finalUpper(s string) string {
 // harness' own fold says it is a variant of s
 func c17Respell(out *vh.Out, r *vh.Rng, s string) string {
 	var c string
-	k := r.Intn(9)
+	k := r.Intn(10)
 	switch k {
+	case 9:
+		// the canonical spelling need not be in NFC ('<' + U+0338 inside quotes)
+		c = norm.NFC.String(s)
+		if c == s {
+			c = norm.NFD.String(s)
+		}
 	case 0:
 		c = norm.NFD.String(s)
 	case 1:
@@ -492,6 +635,159 @@ func c17CheckValid(out *vh.Out, x string) {
 
 func c17TrimDot(s string) string { return strings.TrimSuffix(s, ".") }
 
+// c17CheckSplit: whatever Split accepts re-joins to the string it was given (no code point is dropped,
+// added or moved), for any string
+func c17CheckSplit(out *vh.Out, s string) {
+	m, d, err := Split(s)
+	if err != nil {
+		out.Stat("splitjoin.err")
+		return
+	}
+	j := m
+	if d != "" {
+		j = m + "@" + d
+	}
+	if j != s || m == "" || strings.Contains(d, "@") {
+		out.Violation("C17/split-join", "C17 split "+vh.HexRunes(s), fmt.Sprintf("Split(%q) = %q %q", s, m, d))
+	}
+	out.Stat("splitjoin.ok")
+}
+
+// c17CheckDistinct: a and b are spellings of DIFFERENT addresses by the harness' own reading (their raw local
+// parts resp. their U-label domains differ after NFC + simple lower-casing, and so do the local parts as
+// written): they must not share a lookup key, compare Equal or get the same cleaned form.
+// The premise is re-evaluated here, so the op is replayable with any pair.
+func c17CheckDistinct(out *vh.Out, a, b string) {
+	ma, da := c17SplitAt(a)
+	mb, db := c17SplitAt(b)
+	if !utf8.ValidString(a) || !utf8.ValidString(b) || ma == "" || mb == "" || da == "" || db == "" || c17HasACE(da) || c17HasACE(db) {
+		out.Stat("distinct.not-applicable")
+		return
+	}
+	fda, fdb := c17TrimDot(c17Fold(da)), c17TrimDot(c17Fold(db))
+	localsDiffer := c17Fold(ma) != c17Fold(mb) && c17Fold(c17Raw(ma)) != c17Fold(c17Raw(mb))
+	if !(localsDiffer || fda != fdb) {
+		out.Stat("distinct.not-applicable")
+		return
+	}
+	out.Stat("distinct.checked")
+	op := "C17 distinct " + vh.HexRunes(a) + " " + vh.HexRunes(b)
+	ka, ea := ForLookup(a)
+	kb, eb := ForLookup(b)
+	if ea == nil && eb == nil && ka == kb {
+		out.Violation("C17/distinct-addresses-same-key", op, fmt.Sprintf("ForLookup(%q) = ForLookup(%q) = %q", a, b, ka))
+	}
+	if Equal(a, b) || Equal(b, a) {
+		out.Violation("C17/distinct-addresses-equal", op, fmt.Sprintf("Equal(%q,%q)=true", a, b))
+	}
+	if fda != fdb {
+		xa, e1 := dns.ForLookup(da)
+		xb, e2 := dns.ForLookup(db)
+		if e1 == nil && e2 == nil && xa == xb {
+			out.Violation("C17/distinct-domains-same-dns-key", op, fmt.Sprintf("dns.ForLookup(%q) = dns.ForLookup(%q) = %q", da, db, xa))
+		}
+		if dns.Equal(da, db) {
+			out.Violation("C17/distinct-domains-dns-equal", op, fmt.Sprintf("dns.Equal(%q,%q)=true", da, db))
+		}
+	}
+	ca, e3 := CleanDomain(a)
+	cb, e4 := CleanDomain(b)
+	if e3 == nil && e4 == nil && ca == cb && (ma != mb || fda != fdb) {
+		out.Violation("C17/distinct-addresses-same-cleandomain", op, fmt.Sprintf("CleanDomain(%q) = CleanDomain(%q) = %q", a, b, ca))
+	}
+}
+
+// tokens of a local part as written: escape pairs of a quoted string stay together
+func c17Tokens(m string) []string {
+	rs := []rune(m)
+	quoted := len(rs) > 0 && rs[0] == '"'
+	var ts []string
+	for i := 0; i < len(rs); i++ {
+		if quoted && rs[i] == '\\' && i+1 < len(rs) {
+			ts = append(ts, string(rs[i:i+2]))
+			i++
+		} else {
+			ts = append(ts, string(rs[i]))
+		}
+	}
+	return ts
+}
+
+// c17Neighbour: another address, one code point away from a: a code point inserted into / deleted from the
+// local part (inside the quotes of a quoted one) or a label of the domain, mostly at the start or the end
+func c17Neighbour(r *vh.Rng, a c17Addr) string {
+	var x string
+	switch r.Intn(10) {
+	case 0:
+		x = c17CaseLetters[r.Intn(len(c17CaseLetters))]
+	case 1:
+		x = r.Pick("\u0301", "\u0338", "\u0307", "a", "1", "z", "\u00e9")
+	default:
+		x = c17Trimmable[r.Intn(len(c17Trimmable))]
+	}
+	place := func(ts []string, lo, hi int) []string { // insert x at a position in lo..hi, or delete the token there
+		p := lo
+		switch r.Intn(5) {
+		case 0, 1:
+		case 2, 3:
+			p = hi
+		default:
+			p = lo + r.Intn(hi-lo+1)
+		}
+		if r.Chance(15) && hi-lo >= 2 {
+			if p == hi {
+				p--
+			}
+			return append(append([]string{}, ts[:p]...), ts[p+1:]...)
+		}
+		return append(append(append([]string{}, ts[:p]...), x), ts[p:]...)
+	}
+	// one backslash of a quoted spelling dropped: another local part unless the escape was redundant
+	if strings.Contains(a.mbox, "\\") && r.Chance(50) {
+		var ps []int
+		for i := 0; i < len(a.mbox); i++ {
+			if a.mbox[i] == '\\' {
+				ps = append(ps, i)
+			}
+		}
+		p := ps[r.Intn(len(ps))]
+		return a.mbox[:p] + a.mbox[p+1:] + "@" + a.domain
+	}
+	// one code point replaced by its compatibility (NFKC) form: U+3000 / U+00A0 -> space, fullwidth -> ASCII ...
+	if r.Chance(12) {
+		rs := []rune(a.mbox)
+		var ps []int
+		for i, ch := range rs {
+			if k := norm.NFKC.String(string(ch)); k != norm.NFC.String(string(ch)) && !strings.ContainsAny(k, "\"\\@") {
+				ps = append(ps, i)
+			}
+		}
+		if len(ps) > 0 {
+			p := ps[r.Intn(len(ps))]
+			return string(rs[:p]) + norm.NFKC.String(string(rs[p])) + string(rs[p+1:]) + "@" + a.domain
+		}
+	}
+	if r.Chance(25) && !strings.HasPrefix(a.domain, "[") {
+		ls := strings.Split(a.domain, ".")
+		li := 0 // first or last label most of the time
+		if r.Bool() {
+			li = len(ls) - 1
+		}
+		if r.Chance(20) {
+			li = r.Intn(len(ls))
+		}
+		ts := c17Tokens(ls[li])
+		ls[li] = strings.Join(place(ts, 0, len(ts)), "")
+		return a.mbox + "@" + strings.Join(ls, ".")
+	}
+	ts := c17Tokens(a.mbox)
+	lo, hi := 0, len(ts)
+	if _, ok := c17OwnUnquote(a.mbox); ok {
+		lo, hi = 1, len(ts)-1
+	}
+	return strings.Join(place(ts, lo, hi), "") + "@" + a.domain
+}
+
 // c17CheckPair: canon and v are spellings of one address (by construction of the generator)
 func c17CheckPair(out *vh.Out, canon, v string) {
 	vop := "C17 variants " + vh.HexRunes(canon) + " " + vh.HexRunes(v)
@@ -595,9 +891,19 @@ func c17Monitor(out *vh.Out, r *vh.Rng, a c17Addr) {
 	}
 	// split / join
 	m, d, err := Split(canon)
-	if err != nil || m+"@"+d != canon {
+	if err != nil || m+"@"+d != canon || m != a.mbox {
 		out.Violation("C17/split-join", op, fmt.Sprintf("Split(%q) = %q %q %v", canon, m, d, err))
 	}
+	c17CheckSpelling(out, a.mbox)
+	// a neighbouring, different address is kept apart (also from the variants)
+	nb := c17Neighbour(r, a)
+	c17CheckDistinct(out, canon, nb)
+	c17CheckDistinct(out, nb, vs[len(vs)-1])
+	if r.Chance(25) {
+		c17Op(out, "equal", canon, nb)
+	}
+	c17CheckSplit(out, nb)
+	c17CheckValid(out, nb)
 	// ASCII <-> Unicode: the generated address is in U-label form, so ToUnicode leaves it alone; with an
 	// ASCII local part ToASCII succeeds and the two conversions are inverse to one another
 	if us, err := ToUnicode(canon); err != nil || us != canon {
@@ -622,6 +928,26 @@ func c17Monitor(out *vh.Out, r *vh.Rng, a c17Addr) {
 	}
 }
 
+// a quoted string (by the harness' own reading) unquotes to what it spells, and the raw local part
+// survives QuoteMbox / UnquoteMbox
+func c17CheckSpelling(out *vh.Out, s string) {
+	if !utf8.ValidString(s) {
+		return
+	}
+	raw, ok := c17OwnUnquote(s)
+	if !ok {
+		return
+	}
+	out.Stat("ownunquote.checked")
+	if u, err := UnquoteMbox(s); err != nil || u != raw {
+		out.Violation("C17/unquote-spelling", "C17 unquote "+vh.HexRunes(s), fmt.Sprintf("UnquoteMbox(%q)=%q,%v, spelled %q", s, u, err, raw))
+	}
+	q := QuoteMbox(raw)
+	if u, err := UnquoteMbox(q); err != nil || u != raw {
+		out.Violation("C17/unquote-quote", "C17 quote "+vh.HexRunes(raw), fmt.Sprintf("Unquote(Quote(%q)=%q)=%q %v", raw, q, u, err))
+	}
+}
+
 func c17Strings(out *vh.Out, s, t string) {
 	// Equal <=> same key; symmetry
 	ks, _ := ForLookup(s)
@@ -643,6 +969,11 @@ func c17Strings(out *vh.Out, s, t string) {
 		out.Violation("C17/dns-equal-not-symmetric", dop, "")
 	}
 	c17CheckValid(out, s)
+	c17CheckSplit(out, s)
+	c17CheckSpelling(out, s)
+	if m, d := c17SplitAt(s); d != "" {
+		c17CheckSpelling(out, m)
+	}
 	// IsASCII
 	if utf8.ValidString(s) {
 		all := true
@@ -718,6 +1049,8 @@ func c17Replay(out *vh.Out, op string) {
 		c17CheckPair(out, vh.UnhexRunes(toks[2]), vh.UnhexRunes(toks[3]))
 	case "validkey":
 		c17CheckValid(out, vh.UnhexRunes(toks[2]))
+	case "distinct":
+		c17CheckDistinct(out, vh.UnhexRunes(toks[2]), vh.UnhexRunes(toks[3]))
 	case "crash":
 		c17NoCrash(out, string(vh.UnhexBytes(toks[2])), string(vh.UnhexBytes(toks[3])))
 	default:
